@@ -1,6 +1,9 @@
 use crate::Monitor;
 pub mod c01;
 pub mod c03;
+pub mod c04;
+pub mod c10;
+pub mod c11;
 pub mod c17;
 pub mod c18;
 
@@ -9,6 +12,9 @@ pub fn lookup(id: &str) -> Option<Monitor> {
     "C01" => Some(c01::monitor_c01()),
     "C02" => Some(c01::monitor_c02()),
     "C03" => Some(c03::monitor()),
+    "C04" => Some(c04::monitor()),
+    "C10" => Some(c10::monitor()),
+    "C11" => Some(c11::monitor()),
     "C17" => Some(c17::monitor()),
     "C18" => Some(c18::monitor()),
     _ => None,
